@@ -119,7 +119,7 @@ func Harness_C16_Reject() {
 }
 
 // Harness_C16_RejectPaddedRealKey: the JWK of a real key whose x or y carries one extra leading zero byte (33 / 49 /
-// 67 bytes: the same number, wrong width) or lacks its leading zero byte (when the coordinate has one) is rejected.
+// 67 bytes: the same number, wrong width) or lacks its leading zero byte (when the coordinate has one), also with the other coordinate a byte too long, is rejected.
 func Harness_C16_RejectPaddedRealKey() {
 	verifrt.KeyLeadingZeros(1)
 	curve, name, size := c16Curve(verifrt.Choose("curve", 4))
@@ -130,10 +130,11 @@ func Harness_C16_RejectPaddedRealKey() {
 	if which == 1 {
 		mod = y
 	}
-	switch verifrt.Choose("width", 2) {
+	width := verifrt.Choose("width", 3)
+	switch width {
 	case 0:
 		mod = append([]byte{0}, mod...)
-	case 1:
+	case 1, 2:
 		verifrt.Assume(mod[0] == 0) // only a coordinate with a leading zero byte has a shorter spelling of the same number
 		mod = mod[1:]
 	}
@@ -141,6 +142,13 @@ func Harness_C16_RejectPaddedRealKey() {
 		x = mod
 	} else {
 		y = mod
+	}
+	if width == 2 { // compensating widths: one coordinate a byte short, the other a byte long (the total is unchanged)
+		if which == 0 {
+			y = append([]byte{0}, y...)
+		} else {
+			x = append([]byte{0}, x...)
+		}
 	}
 	jwk := &jws.JWK{Kty: "EC", Crv: name, X: base64.RawURLEncoding.EncodeToString(x), Y: base64.RawURLEncoding.EncodeToString(y)}
 	_, err := parseJWK(jwk)
